@@ -738,7 +738,7 @@ def r8(chk, prog, m, rid):
                   "(whole, escapes decoded once, ~1 before ~0).  A function whose token interface cannot be calibrated on the plain "
                   "token \"ab\" is undecided")
     toks = []
-    for ln in range(0, 5):
+    for ln in range(0, 6 if chk.tier == "thorough" else 5):
         toks += [bytes(t) for t in product(b"~01/a", repeat=ln)]
     n = 0
     nf = 0
